@@ -165,6 +165,23 @@ def evaluate(case):
     macros = [SHIPPED_MACROS] if case["macros"] else None
     # a valid_addr_range that contains no address of the vocabulary installs the tagging observer without tagging anything
     cfg = {"valid_addr_range": {"min": "fffffffff000", "max": "fffffffffff0"}} if case.get("transparent_addr_range") else None
+    tagging = False
+    if cfg is not None:
+        # ... or, where the listing allows it, a range of one address that is the target of direct `call` / `jmp` instructions only:
+        # those records then read `call,valid_addr,|` - still one record per instruction, with one operand field
+        import re
+        import zlib
+
+        hexes = [(k_, o_[0]) for k_, (a_, m_, o_) in enumerate(NV) if m_ in ("call", "jmp") and len(o_) == 1 and re.fullmatch(r"[0-9a-f]+", o_[0])]
+        if hexes and zlib.crc32(repr(NV).encode()) % 2 == 0:
+            T = hexes[0][1]
+            users = [m_ for a_, m_, o_ in NV if o_ and o_[0] == T]
+            if all(m_ in ("call", "jmp") for m_ in users) and not any(T in o_ for a_, m_, ops_ in NV for o_ in ops_[1:]):
+                cfg = {"valid_addr_range": {"min": T, "max": T}}
+                NV = [(a_, m_, ["valid_addr"] if (m_ in ("call", "jmp") and o_ and o_[0] == T) else o_) for a_, m_, o_ in NV]
+                records = [stream_record(a, m, o) for a, m, o in NV]
+                table = record_table(records)
+                tagging = True
     if case.get("sections_cfg"):
         cfg = dict(cfg or {}, sections=case["sections_cfg"])
     mn_full, op_full = case.get("flags", [False, False])
@@ -182,6 +199,8 @@ def evaluate(case):
         ev.tags.append("continuation-lines")
     if case.get("transparent_addr_range"):
         ev.tags.append("addr-range-observer")
+    if tagging:
+        ev.tags.append("addr-range-tags-a-target")
     outs = {}
     for key, r in res.items():
         if r[0] == "inconclusive":
